@@ -67,6 +67,7 @@ fn remap(step: &Value, t: usize) -> Value {
 pub fn run(input: &str, output: &str, opts: Opts) -> std::io::Result<i32> {
     let s = shared();
     s.free.store(true, Ordering::SeqCst);
+    s.reentrant.store(true, Ordering::SeqCst);
     s.steer.store(false, Ordering::SeqCst);
     verif::set_manual(false);
     verif::set_ring_capacity(opts.ring);
@@ -107,8 +108,9 @@ pub fn run(input: &str, output: &str, opts: Opts) -> std::io::Result<i32> {
     for round in 0..opts.rounds {
         // quiesce, then start the round's log
         std::thread::sleep(Duration::from_micros(opts.interval_us * 3 + 500));
-        fastrace::flush();
-        fastrace::flush();
+        if !flush_twice() {
+            return hung(&mut out, round, "flush()");
+        }
         rt::take_log();
         s.chan_thread.lock().unwrap().clear();
         s.parked.lock().unwrap().clear();
@@ -142,6 +144,14 @@ pub fn run(input: &str, output: &str, opts: Opts) -> std::io::Result<i32> {
                     drop(h);
                 }
             }).unwrap());
+        }
+        // a tracing call that blocks (C07) keeps its thread from finishing
+        let deadline = std::time::Instant::now() + Duration::from_secs(10);
+        while joins.iter().any(|j| !j.is_finished()) {
+            if std::time::Instant::now() > deadline {
+                return hung(&mut out, round, "a tracing call on a worker thread");
+            }
+            std::thread::sleep(Duration::from_millis(1));
         }
         for (i, j) in joins.into_iter().enumerate() {
             let _ = j.join();
@@ -192,14 +202,22 @@ pub fn run(input: &str, output: &str, opts: Opts) -> std::io::Result<i32> {
         }
         // two report intervals and two explicit cycles later everything must have arrived
         std::thread::sleep(Duration::from_micros(opts.interval_us * 3 + 500));
-        fastrace::flush();
-        fastrace::flush();
+        if !flush_twice() {
+            return hung(&mut out, round, "flush()");
+        }
         let st = verif::collector_stats();
+        let deadrx = {
+            let m = s.chan_thread.lock().unwrap();
+            st.receivers.iter().filter(|c| m.contains_key(*c)).count()
+        };
         emit(json!({"ev":"stats",
             "active": st.active.iter().map(|a| rt::cid_out(a.collect_id)).filter(|c| !foreign.contains(c)).collect::<Vec<_>>(),
             "sets": st.active.iter().map(|a| a.buffered_sets).sum::<usize>(),
             "dang": st.active.iter().map(|a| a.danglings).sum::<usize>(),
-            "deadrx": st.receivers.len(), "heap": crate::steer::live_heap()}));
+            // receivers of this round's worker threads (all joined by now); the collector's own thread may
+            // have a ring too when the reporter traces itself
+            "deadrx": deadrx,
+            "heap": crate::steer::live_heap()}));
         emit(json!({"ev":"end","run":round,"misses":0,"hung":false}));
         for l in rt::take_log() {
             out.write_all(l.as_bytes())?;
@@ -253,6 +271,78 @@ pub fn ids(output: &str, threads: usize) -> std::io::Result<i32> {
     writeln!(out, "{}", json!({"ev":"reset","run":0,"cfg":{"cancelable":false,"enabled":true,"ready":true,"queue":10240,"stack":4096,"ring":10240,"foreign":[],"free":true}}))?;
     writeln!(out, "{}", json!({"ev":"ids","threads":threads,"ids":ids}))?;
     writeln!(out, "{}", json!({"ev":"end","run":0,"misses":0,"hung":false}))?;
+    out.flush()?;
+    Ok(0)
+}
+
+/// "At the latest when a flush() called afterwards returns" with a long backlog: `n` spans of one
+/// trace are finished (on the root's thread, or on a worker that is joined before the root finishes)
+/// while no collector cycle runs (report interval of an hour), then one flush().  What the reporter
+/// has been given when flush() returns is recorded.
+pub fn burst(output: &str, n: usize, cancelable: bool, cross: bool) -> std::io::Result<i32> {
+    use fastrace::prelude::*;
+    fastrace::set_reporter(
+        rt::CapturingReporter,
+        fastrace::collector::Config::default().cancelable(cancelable).report_interval(Duration::from_secs(3600)),
+    );
+    shared().free.store(true, Ordering::SeqCst);
+    // the collector's start-up cycle
+    std::thread::sleep(Duration::from_millis(300));
+    let before = shared().nrecs.load(Ordering::SeqCst);
+    let root = Span::root("burst-root", SpanContext::new(fastrace::collector::TraceId(0xb0057), fastrace::collector::SpanId(1)));
+    if cross {
+        let r = &root;
+        std::thread::scope(|sc| {
+            sc.spawn(move || {
+                for _ in 0..n {
+                    let _c = Span::enter_with_parent("burst-child", r);
+                }
+            });
+        });
+    } else {
+        for _ in 0..n {
+            let _c = Span::enter_with_parent("burst-child", &root);
+        }
+    }
+    drop(root);
+    fastrace::flush();
+    let by_flush = shared().nrecs.load(Ordering::SeqCst) - before;
+    fastrace::flush();
+    fastrace::flush();
+    let later = shared().nrecs.load(Ordering::SeqCst) - before;
+    let mut out = std::io::BufWriter::new(std::fs::File::create(output)?);
+    writeln!(out, "{}", json!({"ev":"reset","run":0,"cfg":{"cancelable":cancelable,"enabled":true,"ready":true,"queue":10240,"stack":4096,"ring":10240,"foreign":[],"free":true}}))?;
+    writeln!(out, "{}", json!({"ev":"burst","finished":n + 1,"by_flush":by_flush,"later":later,"cross":cross}))?;
+    writeln!(out, "{}", json!({"ev":"end","run":0,"misses":0,"hung":false}))?;
+    out.flush()?;
+    Ok(0)
+}
+
+
+/// flush() twice, on a helper thread: a collector that is stuck (C07) must not take the harness with it.
+fn flush_twice() -> bool {
+    let (tx, rx) = std::sync::mpsc::channel();
+    std::thread::spawn(move || {
+        fastrace::flush();
+        fastrace::flush();
+        let _ = tx.send(());
+    });
+    rx.recv_timeout(Duration::from_secs(10)).is_ok()
+}
+
+/// Something did not come back: the round ends with a `hang` event (a C07 violation), the process
+/// cannot go on (the collector may hold its lock for ever).
+fn hung(out: &mut std::io::BufWriter<std::fs::File>, round: usize, who: &str) -> std::io::Result<i32> {
+    emit(json!({"ev":"hang","who":who}));
+    emit(json!({"ev":"end","run":round,"misses":0,"hung":true}));
+    let log = rt::take_log();
+    if !log.iter().any(|l| l.contains("\"ev\":\"reset\"")) {
+        writeln!(out, "{}", json!({"ev":"reset","run":round,"cfg":{"cancelable":false,"enabled":true,"ready":true,"queue":10240,"stack":4096,"ring":10240,"foreign":[],"free":true}}))?;
+    }
+    for l in log {
+        out.write_all(l.as_bytes())?;
+        out.write_all(b"\n")?;
+    }
     out.flush()?;
     Ok(0)
 }
